@@ -7,16 +7,20 @@ import (
 	"fmt"
 
 	"github.com/tink-crypto/tink-go/v2/internal/internalapi"
+	icomp "github.com/tink-crypto/tink-go/v2/internal/signature/compositemldsa"
 	imldsa "github.com/tink-crypto/tink-go/v2/internal/signature/mldsa"
 	islh "github.com/tink-crypto/tink-go/v2/internal/signature/slhdsa"
 	"github.com/tink-crypto/tink-go/v2/internal/verifharness/hlib"
 	"github.com/tink-crypto/tink-go/v2/key"
+	"github.com/tink-crypto/tink-go/v2/keyset"
 	"github.com/tink-crypto/tink-go/v2/signature"
+	pcomp "github.com/tink-crypto/tink-go/v2/signature/compositemldsa"
 	"github.com/tink-crypto/tink-go/v2/signature/ecdsa"
 	"github.com/tink-crypto/tink-go/v2/signature/ed25519"
 	pmldsa "github.com/tink-crypto/tink-go/v2/signature/mldsa"
 	"github.com/tink-crypto/tink-go/v2/signature/rsassapss"
 	pslh "github.com/tink-crypto/tink-go/v2/signature/slhdsa"
+	phmldsa "github.com/tink-crypto/tink-go/v2/signprehash/mldsa"
 	"github.com/tink-crypto/tink-go/v2/tink"
 )
 
@@ -76,6 +80,7 @@ func idFor(rng *hlib.Rng, raw bool) uint32 {
 func (e *env) sigSection() {
 	rng := e.rng("sig")
 	e.mldsaSection(rng)
+	e.compositeSection(rng)
 	e.slhSection(rng)
 	e.pssSection(rng)
 	e.ecdsaSection(rng)
@@ -100,6 +105,7 @@ func (e *env) mldsaSection(rng *hlib.Rng) {
 			copy(seed[:], rng.Bytes(32))
 			ipk, isk := set.par.KeyGenFromSeed(seed)
 			skTok := hlib.Tok(isk.Encode())
+			op := "sign" // D sign <set> <sk> <M'> <rnd>  |  D signmu <set> <sk> <mu> <rnd>
 			check := func(label string, prefix []byte, mp []byte, sign func() ([]byte, error), verify func(sig []byte) error) {
 				var sig []byte
 				var err error
@@ -114,7 +120,7 @@ func (e *env) mldsaSection(rng *hlib.Rng) {
 					return
 				}
 				// the reference's deterministic Sign_internal with rnd = the 32 tape bytes
-				o.Emit("!D sign "+set.name+" "+skTok+" "+hlib.Tok(mp)+" "+hlib.Tok(drawn), "ok "+hlib.Tok(sig[len(prefix):]), true)
+				o.Emit("!D "+op+" "+set.name+" "+skTok+" "+hlib.Tok(mp)+" "+hlib.Tok(drawn), "ok "+hlib.Tok(sig[len(prefix):]), true)
 				o.Count("mldsa/" + set.name + "/signature-from-tape/" + label)
 				if err := verify(sig); err != nil {
 					o.Violate("ML-DSA-%s %s: own signature rejected: %v", set.name, label, err)
@@ -164,6 +170,28 @@ func (e *env) mldsaSection(rng *hlib.Rng) {
 			ctx, msg := rng.Bytes(rng.Pick(1, 17, 255)), rng.Bytes(rng.MsgLen(100))
 			check("internal-with-ctx", nil, fmtMsg(ctx, msg), func() ([]byte, error) { return isk.Sign(msg, ctx) },
 				func(sig []byte) error { return ipk.Verify(msg, sig, ctx) })
+			// external-mu signing: the library's SignWithMu and the signprehash primitive built on it
+			op = "signmu"
+			mu := [64]byte(rng.Bytes(64))
+			check("internal-SignWithMu", nil, mu[:], func() ([]byte, error) { return isk.SignWithMu(mu), nil },
+				func(sig []byte) error { return ipk.VerifyWithMu(mu, sig) })
+			for _, pv := range []pmldsa.Variant{pmldsa.VariantTink, pmldsa.VariantNoPrefixWithPrehashID} {
+				id := rng.KeyID()
+				priv, err := pmldsa.NewPrivateKey(hlib.Secret(seed[:]), id, must(pmldsa.NewParameters(set.inst, pv)))
+				if err != nil {
+					o.Violate("mldsa.NewPrivateKey(%v): %v", pv, err)
+					continue
+				}
+				ps, err := phmldsa.NewPrehashSigner(priv, internalapi.Token{})
+				if err != nil {
+					o.Violate("signprehash NewPrehashSigner(%v): %v", pv, err)
+					continue
+				}
+				mu2 := [64]byte(rng.Bytes(64))
+				prehash := cat([]byte{0xff}, be32(id), mu2[:])
+				check("signprehash/"+pv.String(), nil, mu2[:], func() ([]byte, error) { return ps.SignPrehash(prehash) },
+					func(sig []byte) error { return ipk.VerifyWithMu(mu2, sig) })
+			}
 		}
 	}
 }
@@ -447,6 +475,119 @@ func (e *env) ed25519Section(rng *hlib.Rng) {
 				o.Violate("%s: Ed25519 signatures of one message differ", r.label)
 			}
 			o.Count("ed25519/deterministic-draws-nothing")
+		}
+	}
+}
+
+// ---------- composite ML-DSA: ML-DSA half from the first 32 tape bytes, classical half after it ----------
+
+func (e *env) compositeSection(rng *hlib.Rng) {
+	o := e.o
+	combos := []struct {
+		name   string
+		alg    pcomp.ClassicalAlgorithm
+		ialg   icomp.ClassicalAlgorithm
+		inst   pcomp.MLDSAInstance
+		iinst  icomp.MLDSAInstance
+		set    string
+		par    *imldsa.VerifParams
+		sigLen int
+		cl     string // read pattern of the classical half
+	}{
+		{"MLDSA65-Ed25519", pcomp.Ed25519, icomp.Ed25519, pcomp.MLDSA65, icomp.MLDSA65, "65", imldsa.MLDSA65, 3309, ""},
+		{"MLDSA65-ECDSA-P256", pcomp.ECDSAP256, icomp.ECDSAP256, pcomp.MLDSA65, icomp.MLDSA65, "65", imldsa.MLDSA65, 3309, "32"},
+		{"MLDSA87-ECDSA-P384", pcomp.ECDSAP384, icomp.ECDSAP384, pcomp.MLDSA87, icomp.MLDSA87, "87", imldsa.MLDSA87, 4627, "48"},
+		{"MLDSA87-ECDSA-P521", pcomp.ECDSAP521, icomp.ECDSAP521, pcomp.MLDSA87, icomp.MLDSA87, "87", imldsa.MLDSA87, 4627, "66"},
+	}
+	variants := []pcomp.Variant{pcomp.VariantTink, pcomp.VariantNoPrefix}
+	for ci, c := range combos {
+		for rep := 0; rep < hlib.N(1, 4); rep++ {
+			o.Case()
+			vi := (ci + rep) % 2
+			params, err := pcomp.NewParameters(c.alg, c.inst, variants[vi])
+			if err != nil {
+				o.Violate("compositemldsa.NewParameters(%s): %v", c.name, err)
+				continue
+			}
+			m := keyset.NewManager()
+			var id uint32
+			e.t.run(nil, func() { id, err = m.AddNewKeyFromParameters(params) })
+			if err != nil {
+				o.Violate("composite key generation (%s): %v", c.name, err)
+				continue
+			}
+			// ML-DSA seed (32) then the classical key: both from the tape
+			o.Count("pattern/composite-keygen/" + c.name + "=" + e.t.Pattern())
+			es, _ := keyset.VerifManagerDump(m)
+			priv, ok := es[0].Key.(*pcomp.PrivateKey)
+			if !ok {
+				o.Violate("composite key generation (%s): key is %T", c.name, es[0].Key)
+				continue
+			}
+			_ = id
+			var seed [32]byte
+			copy(seed[:], sdata(priv.MLDSAPrivateKey().PrivateKeyBytes()))
+			if len(e.t.Log) < 2 || !bytes.Equal(e.t.Log[1], seed[:]) {
+				o.Violate("composite key generation (%s): the ML-DSA seed is not the 32 bytes drawn after the key id", c.name)
+			}
+			_, isk := c.par.KeyGenFromSeed(seed)
+			skTok := hlib.Tok(isk.Encode())
+			label, err := icomp.ComputeLabel(c.iinst, c.ialg)
+			if err != nil {
+				o.Violate("ComputeLabel(%s): %v", c.name, err)
+				continue
+			}
+			routes := e.sigRoutes("composite/"+c.name+"/"+[]string{"TINK", "RAW"}[vi], priv, func() (tink.Signer, tink.Verifier, error) {
+				s, err := pcomp.NewSigner(priv, internalapi.Token{})
+				if err != nil {
+					return nil, nil, err
+				}
+				pk, _ := priv.PublicKey()
+				v, err := pcomp.NewVerifier(pk.(*pcomp.PublicKey), internalapi.Token{})
+				return s, v, err
+			})
+			for _, r := range routes {
+				msg := rng.Bytes(rng.MsgLen(100))
+				sig, log, drawn, err := e.sign(r.s, false, nil, msg)
+				pre := priv.OutputPrefix()
+				if err != nil || !bytes.HasPrefix(sig, pre) || len(sig) < len(pre)+c.sigLen {
+					o.Violate("%s: signing failed or wrong shape: %v", r.label, err)
+					continue
+				}
+				want := "32"
+				if c.cl != "" {
+					want += "," + c.cl
+				}
+				o.Count("pattern/composite/" + c.name + "=" + patternOf(log))
+				if patternOf(log) != want {
+					o.Violate("%s: read pattern %s, want %s", r.label, patternOf(log), want)
+					continue
+				}
+				mPrime := icomp.ComputeMessagePrime(label, msg)
+				o.Emit("!D sign "+c.set+" "+skTok+" "+hlib.Tok(fmtMsg([]byte(label), mPrime))+" "+hlib.Tok(log[0]), "ok "+hlib.Tok(sig[len(pre):len(pre)+c.sigLen]), true)
+				o.Count("composite/" + c.name + "/mldsa-half-from-tape")
+				if err := r.v.Verify(sig, msg); err != nil {
+					o.Violate("%s: own signature rejected: %v", r.label, err)
+				}
+				sig2, _, _, err := e.sign(r.s, false, nil, msg)
+				if err != nil || bytes.Equal(sig[:len(pre)+c.sigLen], sig2[:len(pre)+c.sigLen]) || (c.cl != "" && bytes.Equal(sig[len(pre)+c.sigLen:], sig2[len(pre)+c.sigLen:])) {
+					o.Violate("%s: a randomized half of two signatures of one message is equal", r.label)
+				}
+				sig3, _, _, err := e.sign(r.s, false, drawn, msg)
+				if err != nil || !bytes.Equal(sig, sig3) {
+					o.Violate("%s: replaying the tape does not reproduce the signature", r.label)
+				}
+				if c.cl != "" {
+					// a flipped byte of the second read changes the classical half only
+					d4 := clone(drawn)
+					d4[32+rng.Intn(len(d4)-32)] ^= 1 << uint(rng.Intn(8))
+					sig4, _, _, err := e.sign(r.s, false, d4, msg)
+					if err != nil || !bytes.Equal(sig4[:len(pre)+c.sigLen], sig[:len(pre)+c.sigLen]) || bytes.Equal(sig4[len(pre)+c.sigLen:], sig[len(pre)+c.sigLen:]) {
+						o.Violate("%s: flipping a byte of the classical half's randomness does not change exactly the classical half", r.label)
+					}
+				}
+				o.Count("composite/differs+replay+perturb")
+			}
 		}
 	}
 }
